@@ -64,6 +64,9 @@ pub enum IdForm {
     LongUtf8(u8),
     /// header only: two X-Client-Id headers, the first one malformed, the canonical one second
     DuplicateBadFirst,
+    /// header only: no X-Client-Id at all, but the (well-formed) id travels somewhere else in the
+    /// request - Authorization (Bearer, Basic), Cookie, a look-alike header name, Forwarded
+    Elsewhere(u8),
     /// path only: a percent-encoded control byte or other byte no id contains (%0A, %0D, %00,
     /// %7F, %20, %C3%A9), alone, inside, or after a complete id
     PercentOdd(u8),
@@ -155,7 +158,7 @@ fn id_text(u: Uuid, f: IdForm, in_path: bool) -> Option<Vec<u8>> {
             b
         }
         IdForm::Empty => vec![],
-        IdForm::Absent => return None,
+        IdForm::Absent | IdForm::Elsewhere(_) => return None,
         IdForm::NonAscii => {
             let mut b = canon.into_bytes();
             b[0] = 0xE9;
@@ -176,6 +179,19 @@ fn id_text(u: Uuid, f: IdForm, in_path: bool) -> Option<Vec<u8>> {
         }
         IdForm::Long => canon.repeat(120).into_bytes(),
     })
+}
+
+fn b64(data: &[u8]) -> String {
+    const T: &[u8; 64] = b"ABCDEFGHIJKLMNOPQRSTUVWXYZabcdefghijklmnopqrstuvwxyz0123456789+/";
+    let mut out = String::new();
+    for c in data.chunks(3) {
+        let n = (c[0] as u32) << 16 | (*c.get(1).unwrap_or(&0) as u32) << 8 | *c.get(2).unwrap_or(&0) as u32;
+        out.push(T[(n >> 18) as usize & 63] as char);
+        out.push(T[(n >> 12) as usize & 63] as char);
+        out.push(if c.len() > 1 { T[(n >> 6) as usize & 63] as char } else { '=' });
+        out.push(if c.len() > 2 { T[n as usize & 63] as char } else { '=' });
+    }
+    out
 }
 
 fn id_form_class(f: IdForm) -> Expect {
@@ -301,7 +317,25 @@ pub fn build(r: &RawReq, client: Uuid, other: Uuid, id: Uuid) -> Built {
     }
     let mut headers: Vec<(String, Vec<u8>)> = vec![];
     match id_text(client, r.cid, false) {
-        None => {}
+        None => {
+            if let IdForm::Elsewhere(k) = r.cid {
+                // the id of the client with data (or, odd k, of the other one)
+                let who = if k % 2 == 0 { client } else { other };
+                let t = who.hyphenated().to_string();
+                let (n, v): (&str, String) = match (k / 2) % 9 {
+                    0 => ("Authorization", format!("Bearer {t}")),
+                    1 => ("Authorization", format!("Basic {}", b64(format!("{t}:").as_bytes()))),
+                    2 => ("Cookie", format!("client_id={t}; X-Client-Id={t}")),
+                    3 => ("Client-Id", t),
+                    4 => ("X-Client", t),
+                    5 => ("X-ClientId", t),
+                    6 => ("X_Client_Id", t),
+                    7 => ("X-Client-Id-Override", t),
+                    _ => ("Proxy-Authorization", format!("Bearer {t}")),
+                };
+                headers.push((n.into(), v.into_bytes()));
+            }
+        }
         Some(t) => {
             headers.push(("X-Client-Id".into(), t));
             if r.cid == IdForm::Duplicate {
@@ -426,6 +460,7 @@ fn idform_header() -> impl Strategy<Value = IdForm> {
         1 => Just(IdForm::Duplicate),
         1 => (0u8..9).prop_map(IdForm::LongUtf8),
         1 => Just(IdForm::DuplicateBadFirst),
+        2 => (0u8..18).prop_map(IdForm::Elsewhere),
     ]
 }
 
@@ -814,7 +849,7 @@ pub fn check_limit_binary(lc: &LimitCase, st: &mut Stats) -> CheckResult {
     let mut proc = None;
     for _ in 0..4 {
         let port = crate::props::binary::free_port("127.0.0.1").ok_or_else(|| Fail::Inconclusive("no loopback port".into()))?;
-        let launch = crate::props::binary::Launch { args: vec!["--data-dir".into(), dir.path().to_string_lossy().into_owned(), "--listen".into(), format!("127.0.0.1:{port}")], env: vec![], connect: vec![format!("127.0.0.1:{port}").parse().unwrap()], cwd: None, dir_arg: None };
+        let launch = crate::props::binary::Launch { args: vec!["--data-dir".into(), dir.path().to_string_lossy().into_owned(), "--listen".into(), format!("127.0.0.1:{port}")], env: vec![], connect: vec![format!("127.0.0.1:{port}").parse().unwrap()], cwd: None, dir_arg: None, listen: vec![] };
         if let Ok(p) = crate::props::binary::spawn(&bin, &launch) {
             proc = Some(p);
             break;
@@ -912,7 +947,7 @@ pub fn check_declared_binary(dc: &DeclCase, st: &mut Stats) -> CheckResult {
     let mut proc = None;
     for _ in 0..4 {
         let port = crate::props::binary::free_port("127.0.0.1").ok_or_else(|| Fail::Inconclusive("no loopback port".into()))?;
-        let launch = crate::props::binary::Launch { args: vec!["--data-dir".into(), dir.path().to_string_lossy().into_owned(), "--listen".into(), format!("127.0.0.1:{port}")], env: vec![], connect: vec![format!("127.0.0.1:{port}").parse().unwrap()], cwd: None, dir_arg: None };
+        let launch = crate::props::binary::Launch { args: vec!["--data-dir".into(), dir.path().to_string_lossy().into_owned(), "--listen".into(), format!("127.0.0.1:{port}")], env: vec![], connect: vec![format!("127.0.0.1:{port}").parse().unwrap()], cwd: None, dir_arg: None, listen: vec![] };
         if let Ok(p) = crate::props::binary::spawn(&bin, &launch) {
             proc = Some(p);
             break;
@@ -1774,7 +1809,7 @@ fn check_sock_c20(sc: &SCase20, st: &mut Stats) -> CheckResult {
             let mut a = args.clone();
             a.push("--listen".into());
             a.push(format!("127.0.0.1:{port}"));
-            let launch = crate::props::binary::Launch { args: a, env: vec![], connect: vec![format!("127.0.0.1:{port}").parse().unwrap()], cwd: None, dir_arg: None };
+            let launch = crate::props::binary::Launch { args: a, env: vec![], connect: vec![format!("127.0.0.1:{port}").parse().unwrap()], cwd: None, dir_arg: None, listen: vec![] };
             if let Ok(p) = crate::props::binary::spawn(&bin, &launch) {
                 started = Some(p);
                 break;
